@@ -165,8 +165,12 @@ func (fr *Frame) call(site ssa.Instruction, c *ssa.CallCommon, st *State, reach 
 	// 3b. library package declared libframe
 	if pk := calleePkgPath(ce, c); pk != "" && vc.DB.LibFrame[pk] {
 		vc.CalleesUsed[ce.name] = "libframe(assumed: no effect on module-private state)"
+		fr.escapeArgs(c, st)
+		allocPre := vc.look(st, "$alloc")
 		vc.havocLib(st)
-		return fr.freshResults(sig, st, *reach, "", nil)
+		res := fr.freshResults(sig, st, *reach, "", nil)
+		fr.noAliasResults(sig, res, st, *reach, allocPre)
+		return res
 	}
 	// 4. inline
 	if ce.fn != nil && len(ce.fn.Blocks) > 0 && fr.canInline(ce.fn) {
@@ -559,6 +563,7 @@ func (fr *Frame) applyContract(site ssa.Instruction, k *FuncContract, ce callee,
 	}
 	// havoc the frame
 	if k.Flags["libframe"] {
+		fr.escapeArgs(c, st)
 		vc.havocLib(st)
 		env.cur = pre
 		for _, m := range k.Modifies {
@@ -994,4 +999,41 @@ func (vc *VC) modsOfCall(x ssa.CallInstruction, ms *modSet, depth int, fr *Frame
 		fmt.Fprintf(os.Stderr, "mods: no summary for %s (called in %s)\n", name, QualName(x.Parent()))
 	}
 	ms.all = true
+}
+
+// escapeArgs marks the backing arrays of slice-typed arguments as handed out.
+func (fr *Frame) escapeArgs(c *ssa.CallCommon, st *State) {
+	for _, a := range c.Args {
+		if _, ok := a.Type().Underlying().(*types.Slice); ok {
+			fr.vc.markEscaped(st, fr.val(a))
+		}
+	}
+}
+
+// noAliasResults: what a library call returns cannot point into an array this
+// function allocated and never handed out: it is pre-existing, handed out, or
+// allocated by the call.
+func (fr *Frame) noAliasResults(sig *types.Signature, res []string, st *State, reach, allocPre string) {
+	vc := fr.vc
+	alloc0 := vc.look(vc.entry, "$alloc")
+	esc := "false"
+	if _, ok := vc.hsort["$escaped"]; ok {
+		esc = ""
+	}
+	for i := 0; i < sig.Results().Len() && i < len(res); i++ {
+		var base string
+		switch sig.Results().At(i).Type().Underlying().(type) {
+		case *types.Slice:
+			base = "(s_base " + res[i] + ")"
+		case *types.Pointer:
+			base = res[i]
+		default:
+			continue
+		}
+		e := esc
+		if e == "" {
+			e = fmt.Sprintf("(select %s %s)", vc.look(st, "$escaped"), base)
+		}
+		vc.assume(reach, fmt.Sprintf("(or (<= %s %s) %s (> %s %s))", base, alloc0, e, base, allocPre))
+	}
 }
